@@ -66,6 +66,16 @@ impl TV {
         }
     }
 
+    /// nesting depth of containers only: scalars 0 (an empty container 1)
+    pub fn cdepth(&self) -> usize {
+        match self {
+            TV::Struct(fs) => 1 + fs.iter().map(|(_, v)| v.cdepth()).max().unwrap_or(0),
+            TV::List(_, xs) | TV::Set(_, xs) => 1 + xs.iter().map(|v| v.cdepth()).max().unwrap_or(0),
+            TV::Map(_, _, kv) => 1 + kv.iter().map(|(k, v)| k.cdepth().max(v.cdepth())).max().unwrap_or(0),
+            _ => 0,
+        }
+    }
+
     pub fn node_count(&self) -> usize {
         match self {
             TV::Struct(fs) => 1 + fs.iter().map(|(_, v)| v.node_count()).sum::<usize>(),
@@ -199,10 +209,25 @@ fn gen_len(r: &mut Rng, k: &Knobs, boundary: &[usize], max: usize) -> usize {
 
 fn gen_str(r: &mut Rng, k: &Knobs, utf8: bool) -> Vec<u8> {
     // rarely: lengths around the async readers' 4 KiB pre-allocation threshold
-    let n = if k.boundary_pct > 0 && r.chance(1, 150) { *r.pick(&[4095usize, 4096, 4097, 8200]) } else { gen_len(r, k, &STR_BOUNDARY, k.max_str) };
+    let n = if k.boundary_pct > 0 && r.chance(1, 100) { *r.pick(&[255usize, 256, 1023, 1024, 1025, 2049, 4095, 4096, 4097, 8200]) } else { gen_len(r, k, &STR_BOUNDARY, k.max_str) };
     if utf8 {
-        // ASCII keeps strings valid UTF-8 for the `String`-typed fields
-        (0..n).map(|_| b'a' + (r.below(26) as u8)).collect()
+        // valid UTF-8 for the `String`-typed fields: ASCII, or (one string in three) characters of
+        // two, three and four bytes throughout, so that any byte offset is likely to fall inside one
+        if r.chance(1, 3) {
+            const CHARS: [&str; 6] = ["\u{e9}", "\u{4e2d}", "\u{1f600}", "\u{3b1}", "\u{20ac}", "x"];
+            let mut out: Vec<u8> = Vec::with_capacity(n);
+            while out.len() < n {
+                let c = CHARS[r.below(CHARS.len() as u64) as usize].as_bytes();
+                if out.len() + c.len() <= n {
+                    out.extend_from_slice(c);
+                } else {
+                    out.push(b'a' + (r.below(26) as u8));
+                }
+            }
+            out
+        } else {
+            (0..n).map(|_| b'a' + (r.below(26) as u8)).collect()
+        }
     } else {
         r.bytes(n)
     }
@@ -682,6 +707,32 @@ pub fn rich_chain(r: &mut Rng, links: usize) -> TV {
                 let t = v.ttype();
                 TV::Map(t, T_I64, vec![(v, TV::I64(5))])
             }
+        };
+    }
+    v
+}
+
+/// A chain of `depth` levels (as `TV::depth` counts them) whose innermost value is of every
+/// kind in turn: an empty list / set / map / struct, a scalar, a string, a one-element container.
+pub fn leaf_chain(r: &mut Rng, depth: usize) -> TV {
+    let leaf = match r.below(8) {
+        0 => TV::List(T_I32, vec![]),
+        1 => TV::Set(T_BINARY, vec![]),
+        2 => TV::Map(T_I32, T_BINARY, vec![]),
+        3 => TV::Struct(vec![]),
+        4 => TV::Bool(true),
+        5 => TV::Binary(b"leaf".to_vec()),
+        6 => TV::Uuid([7; 16]),
+        _ => TV::Double(1.5f64.to_bits()),
+    };
+    let mut v = leaf;
+    while v.depth() < depth {
+        v = match r.below(5) {
+            0 => TV::List(v.ttype(), vec![v]),
+            1 => TV::Set(v.ttype(), vec![v]),
+            2 => TV::Map(T_BINARY, v.ttype(), vec![(TV::Binary(b"k".to_vec()), v)]),
+            3 => TV::Map(v.ttype(), T_I64, vec![(v, TV::I64(1))]),
+            _ => TV::Struct(vec![(r.range(1, 20) as i16, v)]),
         };
     }
     v
